@@ -24,9 +24,10 @@
 #include <stdlib.h>
 #include <errno.h>
 #include <time.h>
+#include <wchar.h>
 
 enum { F_BACKGROUND, F_FOREGROUND, F_MULTI_SENDER, F_LONG_MESSAGE, F_FILTERED_CALLS, F_LEVEL_CHANGE, F_EMPTY_MESSAGE, F_SHUTDOWN_WITH_BACKLOG,
-       F_TRUNCATED_NOALLOC, F_TRUNCATED_DIRECT, F_EXACT_FIT, F_LEVEL_NONE, F_DEEP_BACKLOG, F_WRITER_ERRORS, F_LONG_SUBJECT, F_STD_BY_NAME, F_STD_BY_FILE, F_NOALLOC_WRITE_FAILED };
+       F_TRUNCATED_NOALLOC, F_TRUNCATED_DIRECT, F_EXACT_FIT, F_LEVEL_NONE, F_DEEP_BACKLOG, F_WRITER_ERRORS, F_LONG_SUBJECT, F_STD_BY_NAME, F_STD_BY_FILE, F_NOALLOC_WRITE_FAILED, F_UNFORMATTABLE };
 
 /* ================================================================== recording writer */
 #define MAX_REC 4096
@@ -222,6 +223,13 @@ static void send_one(struct sender *s, int n) {
         case 2:
             m->expected_len = (size_t)snprintf(m->expected, cap, "%s|%d|%zu|%" PRIu64 "|%p|100%%", payload, n, total, big, (void *)s);
             LOG_AT(m->level, subj, "%s|%d|%zu|%" PRIu64 "|%p|100%%", payload, n, total, big, (void *)s);
+            break;
+        case 4:
+            /* a call whose message cannot be formatted: %ls with characters the C locale cannot represent makes vsnprintf
+             * fail. The call reports an error, no line is produced, and the line string must be destroyed exactly once. */
+            m->expected_len = 0;
+            m->expected[0] = 0;
+            LOG_AT(m->level, subj, "%s %ls", payload, L"caf\u00e9 \u4e16\u754c");
             break;
         default: {
             size_t half = total / 2;
@@ -455,6 +463,10 @@ static void thr_case(void) {
                 mon_flag(F_LONG_SUBJECT);
             }
             m->shape = (int)mon_below(r, 4);
+            if (mon_chance(r, 1, 25)) {
+                m->shape = 4;
+                mon_flag(F_UNFORMATTABLE);
+            }
             unsigned lp = (unsigned)mon_below(r, 100);
             m->plen = lp < 8 ? 0 : lp < 80 ? (size_t)mon_below(r, 200) : lp < 95 ? (size_t)mon_below(r, 3000) : (size_t)mon_below(r, 20001);
             if (burst && m->plen > 120) {
@@ -564,7 +576,7 @@ static void thr_case(void) {
     for (int i = 0; i < T.nsenders; ++i) {
         for (int n = 0; n < T.s[i].nmsgs; ++n) {
             struct msg *m = &T.s[i].msgs[n];
-            if (T.phase_level[m->phase] >= m->level) {
+            if (T.phase_level[m->phase] >= m->level && m->shape != 4) {
                 ++expected_lines;
             } else {
                 ++filtered;
@@ -588,6 +600,9 @@ static void thr_case(void) {
         }
         struct msg *m = &T.s[sender].msgs[n];
         m->seen++;
+        if (m->shape == 4) {
+            mon_violation("C14:unformattable-call-produced-line", "sender %d call %d: a message that cannot be formatted in the C locale produced a line", sender, n);
+        }
         if (T.phase_level[m->phase] < m->level) {
             mon_violation("C14:filtered-call-produced-line", "sender %d call %d at level %s produced a line although the active level was %s", sender, n,
                           level_name(m->level), T.phase_level[m->phase] == AWS_LL_NONE ? "NONE" : level_name(T.phase_level[m->phase]));
@@ -615,7 +630,7 @@ static void thr_case(void) {
     for (int i = 0; i < T.nsenders; ++i) {
         for (int n = 0; n < T.s[i].nmsgs; ++n) {
             struct msg *m = &T.s[i].msgs[n];
-            bool accepted = T.phase_level[m->phase] >= m->level;
+            bool accepted = T.phase_level[m->phase] >= m->level && m->shape != 4;
             if (accepted && m->seen == 0) {
                 mon_violation("C14:lost-line", "sender %d call %d (level %s, %zu payload bytes, %s channel) was accepted but no line reached the writer before clean_up returned",
                               i, n, level_name(m->level), m->plen, background ? "background" : "foreground");
@@ -1084,7 +1099,7 @@ int main(int argc, char **argv) {
                                   "empty_message", "clean_up_with_lines_still_queued", "noalloc_line_truncated", "direct_line_truncated", "line_fills_buffer_exactly",
                                   "level_none", "clean_up_with_more_than_64_lines_queued", "writer_reported_errors",
                                   "subject_name_of_79_to_300_characters", "standard_logger_file_opened_by_name", "standard_logger_callers_FILE",
-                                  "noalloc_logger_stream_refused_a_write"};
+                                  "noalloc_logger_stream_refused_a_write", "message_that_cannot_be_formatted"};
     for (int i = 0; i < (int)(sizeof(names) / sizeof(names[0])); ++i) {
         mon_flag_name(i, names[i]);
     }
